@@ -23,6 +23,7 @@ func runC08(c *core.Ctx) {
 	h.configChangeGates("C08.1 validation")
 	c.Clause("C08.2 one action per entry, only under canChangeConfig(), on a cloned configuration")
 	h.oneActionPerEntry("C08.2 one-action")
+	h.startIndexFirst("C08.2c commit-ready-marker")
 	c.Clause("C08.3 configuration adopted where appended, reverted where truncated; sole writers")
 	h.adoptAndRevert("C08.3 adopt-revert")
 	c.Clause("C08.4 commitConfig tied to the commit index")
